@@ -79,7 +79,7 @@ def cases(draw):
         return draw(chain_case())
     odd = draw(st.integers(0, 3)) == 0
     g = draw(gg.general(inst_props=(RDF_TYPE, RDF_TYPE, RDF_TYPE, "http://ex.org/isA"), class_typing=odd, iri_like_literals=odd,
-                        hash_props=draw(st.integers(0, 3)) == 0, quirks=draw(gg.quirk_set())))
+                        hash_props=draw(st.integers(0, 3)) == 0, quirks=draw(gg.quirk_set(allowed=tuple(gg.QUIRKS) + ("slash_classes", "slash_classes")))))
     cfg = draw(gg.switches())
     cfg["instances_report_mode"] = draw(st.sampled_from(["mixed", "ratio"]))
     if draw(st.booleans()):
